@@ -158,13 +158,6 @@ func (m *Model) applyHash(o Op) Exp {
 		return Exp{R: rInt(cur)}
 	case "hclear":
 		m.dev("D7")
-		// D8: HClear asks HLen (wall clock) before it deletes with the log time
-		if e := m.hash[tk]; e != nil && m.Policy == PolicyCompact && e.exp != 0 && m.Wall != 0 {
-			if m.expiredW(e.exp, o.Ts) != m.expiredR(e.exp) {
-				m.dev("D8-hclear-clock")
-				return Exp{Skip: "HCLEAR while log time and wall clock disagree about the expiry (D8)", Abort: true}
-			}
-		}
 		if e := m.hashW(tk, o.Ts); e != nil {
 			m.hashDrop(tk)
 			return Exp{R: rInt(1)}
